@@ -56,8 +56,8 @@ static std::string region(size_t off, const Base &b, size_t L) {
 }
 
 // ---- modification enumeration ------------------------------------------------------------------------------
-enum { M_BITFLIP, M_SETBYTE, M_TRUNC, M_EXTEND, M_DELBYTE, M_INSBYTE, M_DELBLOCK, M_INSBLOCK, M_SWAPBLOCKS, M_SWAPCHUNKS, M_SWAPIVS, M_HDRxBIT, M_NKINDS };
-static const char *MK[] = {"bitflip", "setbyte", "truncate", "extend", "delbyte", "insbyte", "delblock", "insblock", "swapblocks", "swapchunks", "swapivs", "hdrbyte+bodybit"};
+enum { M_BITFLIP, M_SETBYTE, M_TRUNC, M_EXTEND, M_DELBYTE, M_INSBYTE, M_DELBLOCK, M_INSBLOCK, M_SWAPBLOCKS, M_SWAPCHUNKS, M_SWAPIVS, M_HDRxBIT, M_TAGZxBODY, M_NKINDS };
+static const char *MK[] = {"bitflip", "setbyte", "truncate", "extend", "delbyte", "insbyte", "delblock", "insblock", "swapblocks", "swapchunks", "swapivs", "hdrbyte+bodybit", "tagbyte:=00+bodybyte"};
 static size_t npairs(size_t k) { return k * (k - 1) / 2; }
 static void pair_of(size_t idx, size_t k, size_t &a, size_t &b) { for (a = 0; a < k; a++) { size_t cnt = k - 1 - a; if (idx < cnt) { b = a + 1 + idx; return; } idx -= cnt; } a = 0; b = 1; }
 static size_t mod_count(const Base &b, int kind, bool thorough) {
@@ -75,11 +75,12 @@ static size_t mod_count(const Base &b, int kind, bool thorough) {
   case M_SWAPCHUNKS: return npairs(nch);
   case M_SWAPIVS: return npairs(b.T);
   case M_HDRxBIT: return thorough ? body : 0;
+  case M_TAGZxBODY: return 2 * std::min(body, (size_t)(thorough ? 16 : 3)); // x 256 values of that body byte; even p: tag byte 0 := 0x00, odd p: whole tag := 0x00
   }
   return 0;
 }
 // apply modification; inner = inner index (bit / value); returns false when inner is out of range
-static size_t inner_count(int kind) { return kind == M_BITFLIP ? 8 : kind == M_SETBYTE ? 256 : kind == M_HDRxBIT ? 16 * 8 : 1; }
+static size_t inner_count(int kind) { return kind == M_BITFLIP ? 8 : kind == M_SETBYTE ? 256 : kind == M_HDRxBIT ? 16 * 8 : kind == M_TAGZxBODY ? 256 : 1; }
 static Bytes apply_mod(const Bytes &F, const Base &b, int kind, size_t p, size_t inner, std::string &where) {
   Bytes M = F;
   size_t L = F.size(), hdr = 48 + 20 * (size_t)b.T;
@@ -112,6 +113,13 @@ static Bytes apply_mod(const Bytes &F, const Base &b, int kind, size_t p, size_t
     break;
   }
   case M_SWAPIVS: { size_t x, y; pair_of(p, b.T, x, y); for (int i = 0; i < 20; i++) std::swap(M[48 + 20 * x + i], M[48 + 20 * y + i]); where = "iv-fields"; break; }
+  case M_TAGZxBODY: { // a tag comparison that stops at a NUL / checks a prefix / folds differences accepts a fixed fraction of these; a sound one none of them
+    size_t hl = ref::hlen_of(b.hm), pos = L - 1 - (p / 2);
+    if (p % 2) memset(M.data() + 10, 0, hl); else M[10] = 0;
+    M[pos] = (unsigned char)inner;
+    where = "tag+body";
+    break;
+  }
   case M_HDRxBIT: { // header byte 8 or 9 set to value (inner/8)%8, and one bit of body byte p flipped
     size_t hv = inner / 8, bit = inner % 8;
     M[hv < 8 ? 8 : 9] = (unsigned char)(hv % 8);
@@ -133,8 +141,8 @@ static std::string MODE;
 static long SEED = 0; // VERIF_SEED: only drives the labelled pseudo-random garbage supplement
 
 // c11 shapes
-enum { SH_TRUNC, SH_SHORT, SH_MAGICPREFIX, SH_MODEPAIR, SH_WRONGTAG, SH_GARBAGE, SH_RESIGNED, SH_NSHAPES };
-static const char *SHN[] = {"truncated-valid", "short-file", "magic-prefix", "mode-byte-pair", "wrong-tag-body-length", "garbage(seeded sample)", "cut-and-resigned"};
+enum { SH_TRUNC, SH_SHORT, SH_MAGICPREFIX, SH_MODEPAIR, SH_WRONGTAG, SH_GARBAGE, SH_RESIGNED, SH_FORGED, SH_NSHAPES };
+static const char *SHN[] = {"truncated-valid", "short-file", "magic-prefix", "mode-byte-pair", "wrong-tag-body-length", "garbage(seeded sample)", "cut-and-resigned", "constant-tag-body-sweep"};
 static std::vector<Base> c11_trunc_bases() { // "a valid file truncated anywhere": valid = made by the reference AND, independently, by wencry's own encrypt
   std::vector<Base> v;
   for (int self = 0; self < 2; self++)
@@ -157,6 +165,9 @@ static void build_c11() {
   else { auto bv = border_vals(); for (size_t bi = 0; bi < mb.size(); bi++) for (int x : bv) for (int y : bv) C11.push_back({SH_MODEPAIR, (long)bi, x, y}); }
   for (size_t body : wrongtag_bodies()) for (int T : {1, 2, 4}) for (int hm = 0; hm < 3; hm++) for (int righttag = 0; righttag < 1; righttag++) C11.push_back({SH_WRONGTAG, (long)body, T, hm});
   for (int len = 0; len <= 300; len++) C11.push_back({SH_GARBAGE, len, 0, 0});
+  // well-formed header, a constant tag field (all 0x00 - what a half-written file holds - or all 0xFF) and every body of a counter family: a tag comparison that
+  // stops early / folds the difference accepts a fixed fraction (typically 1/256) of them; a sound one none (chance 2^-128 each)
+  for (int hm = 0; hm < 3; hm++) for (int pat = 0; pat < 2; pat++) for (int hi = 0; hi < (THOROUGH ? 64 : 8); hi++) C11.push_back({SH_FORGED, hm, pat, hi});
   if (MODE == "c12") { // C12 quantifies over ALL files: valid files cut to every length >= 48 and re-tagged with the key (never produced by encryption, but verify and decrypt must still agree on them)
     auto tb2 = c11_trunc_bases();
     for (size_t bi = 0; bi < tb2.size(); bi++) { size_t L = file_of(tb2[bi]).size(); for (size_t m = 48; m < L; m++) C11.push_back({SH_RESIGNED, (long)bi, (long)m, 0}); }
@@ -193,6 +204,18 @@ static Bytes make_c11(const Shape &s, int inner, std::string &desc, int &T) {
     desc = "valid file (T=" + std::to_string(T) + ") cut to " + std::to_string(s.b) + " bytes and re-tagged";
     return F;
   }
+  case SH_FORGED: {
+    T = 1 + (int)(s.c % 2);
+    Bytes F(ref::MAGIC, ref::MAGIC + 8);
+    F.push_back((unsigned char)(1 + s.c % 4)); F.push_back((unsigned char)s.a);
+    F.insert(F.end(), 38, 0);
+    for (int i = 10; i < 10 + ref::hlen_of((int)s.a); i++) F[i] = s.b ? 0xff : 0x00;
+    unsigned k = (unsigned)s.c * 256 + (unsigned)inner;
+    for (size_t i = 0; i < 20 * (size_t)T + 32; i++) F.push_back((unsigned char)(i * 7 + 1));
+    F[F.size() - 1] = (unsigned char)k; F[F.size() - 2] = (unsigned char)(k >> 8); F[48] = (unsigned char)(k * 31 + 5);
+    desc = "well-formed header, tag field all " + std::string(s.b ? "0xFF" : "0x00") + ", hm=" + std::to_string(s.a) + ", body variant " + std::to_string(k);
+    return F;
+  }
   case SH_GARBAGE: { Bytes F(s.a); uint32_t x = 12345 + (uint32_t)s.a * 977 + (uint32_t)s.c + (uint32_t)SEED * 2654435761u; for (auto &v : F) { x = x * 1664525u + 1013904223u; v = (unsigned char)(x >> 24); } if (s.a >= 8 && (s.a % 3 == 0)) memcpy(F.data(), ref::MAGIC, 8); T = 1 + (int)(s.a % 4); desc = "pseudo-random bytes, length " + std::to_string(s.a); return F; }
   }
   return {};
@@ -217,7 +240,7 @@ static void build_tables(const Args &a) {
       for (int k = 0; k < M_NKINDS; k++) {
         bool thor_pairs = THOROUGH && bi % 3 == 0; // header-value x body-bit pairs on every third base file
         size_t c = mod_count(BASES[bi], k, thor_pairs);
-        if (MODE == "c12" && (k == M_HDRxBIT)) c = 0;
+        if (MODE == "c12" && (k == M_HDRxBIT || k == M_TAGZxBODY)) c = 0;
         if (c) { ROWS.push_back({(int)bi, k, TOTAL, c}); TOTAL += c; }
       }
   }
@@ -325,7 +348,7 @@ static std::string run_key(const Case &c) {
 }
 static std::string run_shape(const Case &c) {
   const Shape &s = C11[c.num("i")];
-  int ni = (s.shape == SH_MODEPAIR && s.c < 0) ? 256 : 1;
+  int ni = ((s.shape == SH_MODEPAIR && s.c < 0) || s.shape == SH_FORGED) ? 256 : 1;
   std::string firstv;
   int accepted = 0;
   for (int in = 0; in < ni; in++) {
